@@ -58,7 +58,7 @@ def run(tier, seed):
         "evaluations": summary["evaluations"],
         "distinct_nontrivial": summary["distinct_nontrivial"],
         "exhaustive": False,
-        "rule": "streams: (1) grammar-derived valid configurations covering every clause kind of the manual (see clause_kinds), laid out over files with includes (sibling, sub-directory, -I only, by path), continuations, comments, odd indentation, missing final newline; (2) the same with ONE fault at a position the generator knows (bogus clause, missing include, undefined parameter, unterminated continuation, include of a directory) — oracle = exactly that file, line, include chain and kind; (3) 1-3 random mutations of (1) (delete/swap/duplicate bytes and lines, truncate, backslash at line end, spliced keywords and odd bytes); (4) arbitrary bytes (all bytes / printable / token soup / newline-backslash-tilde heavy); (5) include graphs (chains to depth 12, diamonds, self/mutual/3-cycles, directories, missing files, -I only, shadowing, `..`) with the reference reading order computed by an independent recursive expander; (6) the reader alone, every logical line with position and include chain compared exactly; (7) the `edit` splitter on structured and random commands; corpus of past failures first. Each real parse runs under a %ds watchdog with recover(); after a hang no further experiment is started. distinct_nontrivial = distinct (file set, -D list) with at least 8 bytes of input, counted by content." % 10,
+        "rule": "streams: (1) grammar-derived valid configurations covering every clause kind of the manual (see clause_kinds; cast multiplicities 1-12, zero and negative, written out or through a parameter), laid out over files with includes (sibling, sub-directory, -I only, by path), continuations, comments, odd indentation, missing final newline; (2) the same with ONE fault at a position the generator knows (bogus clause, missing include, one undefined parameter, three or more undefined parameters in one clause, unterminated continuation, include of a directory) — oracle = exactly that file, line, include chain and kind; (3) 1-3 random mutations of (1) (delete/swap/duplicate bytes and lines, truncate, backslash at line end, spliced keywords and odd bytes); (4) arbitrary bytes (all bytes / printable / token soup / newline-backslash-tilde heavy); (5b) cast multiplicities from a list of boundary values (most negative int64 .. 40, signs, non-numbers; bounded above), direct / default / -D; (5) include graphs (chains to depth 12, diamonds, self/mutual/3-cycles, directories, missing files, -I only, shadowing, `..`) with the reference reading order computed by an independent recursive expander; (6) the reader alone, every logical line with position and include chain compared exactly; (7) the `edit` splitter on structured and random commands; corpus of past failures first. Every experiment runs in a CHILD process (the harness re-executed with -child, gob over pipes) under a %ds watchdog and recover(): a case that kills the process (stack overflow, os.Exit) or hangs is attributed to itself, the child is replaced; rendering the diagnostic (RenderError and Error()) is part of every case. distinct_nontrivial = distinct (file set, -D list) with at least 8 bytes of input, counted by content." % 10,
         "samples": summary["samples"],
         "distribution": {k: summary[k] for k in ("counts", "outcomes", "by_stream", "error_classes", "faults", "graph_shapes",
                                                   "clause_kinds", "grammar_texts_accepted", "grammar_texts_total",
@@ -84,7 +84,10 @@ def run(tier, seed):
         inp, obs = rec["In"], rec["Obs"]
         if code == 1:
             sig = L.panic_signature(obs, inp)
-            what = "reading this configuration crashes: panic %r at %s" % (obs.get("Panic"), obs.get("PanicAt"))
+            if obs.get("Kind") == "fatal":
+                what = "reading this configuration kills the whole process (not recoverable): %s" % obs.get("Panic")
+            else:
+                what = "reading this configuration crashes: panic %r at %s" % (obs.get("Panic"), obs.get("PanicAt"))
         else:
             sig, what = CODE_SIG.get(code, ("oracle-%d" % code, "the observation violates the property"))
             what = "%s: observed %s" % (what, L.describe_obs(obs))
@@ -101,6 +104,8 @@ def run(tier, seed):
     for idx in L.global_indices(vals["Oread"], off["read"]):
         rec = cases["read"][idx]
         sig = "reader-" + ("runaway" if rec["End"] == "runaway" else L.panic_signature(rec["Err"], rec["In"]))
+        if rec["Err"].get("Kind") == "fatal":
+            sig = "parser-fatal-error"
         if sig in seen:
             continue
         seen.add(sig)
@@ -109,10 +114,11 @@ def run(tier, seed):
                        "replay": "cmd.VerifC09ReadAll(Files, Dirs, Main, Defines, IP, 200000)"})
     for idx in L.global_indices(vals["Oedit"], off["edit"]):
         rec = cases["edit"][idx]
-        if "edit-malformed-panic" in seen:
+        esig = "parser-fatal-error" if (rec.get("Pan") or "").startswith("fatal") else ("parse-timeout" if rec.get("Pan") == "did not terminate" else "edit-malformed-panic")
+        if esig in seen:
             continue
-        seen.add("edit-malformed-panic")
-        res.violation("edit-malformed-panic", "the script clause %r crashes the parser: %s" % (rec["Line"], rec["Pan"]),
+        seen.add(esig)
+        res.violation(esig, "the script clause %r crashes the parser: %s" % (rec["Line"], rec["Pan"]),
                       {"kind": "failing-input", "input": rec, "replay": "script / %s / end" % rec["Line"]})
     dis = {"Mparse": L.global_indices(vals["Mparse"], off["parse"]), "Mread": L.global_indices(vals["Mread"], off["read"]),
            "Medit": L.global_indices(vals["Medit"], off["edit"])}
